@@ -545,7 +545,7 @@ def run_history(case):
     nontrivial = False
     probes = {}
     tf = _tf_items()
-    junk = []
+    keep = []
 
     def probe(k):
         probes[k] = probes.get(k, 0) + 1
@@ -623,20 +623,34 @@ def run_history(case):
                 probe('pickle_roundtrip')
                 del v, w
         elif kind == 'cached':
-            t = tf[op[1] % len(tf)]
+            from nutils import transform
             r = numpy.random.RandomState(op[3])
             for rep in range(op[2]):
-                pts = types.frozenarray(r.randint(-8, 9, size=(3, t.fromdims)) / 4., copy=False)
-                got = t.apply(pts)
-                want = numpy.dot(pts, t.linear.T) + t.offset
-                if got.shape != want.shape or not numpy.array_equal(got, want):
-                    bad = ('C-stale-cache', f'lru-cached {type(t).__name__}.apply returned {numpy.asarray(got).tolist()} for points {pts.tolist()}, expected {want.tolist()}')
+                # a transform item built for this call only (freed afterwards: its address may be handed to the next one) ...
+                if (op[1] + rep) % 2:
+                    lin = (r.randint(-4, 5, size=(2, 2)) / 2. + numpy.eye(2) * 5)
+                    t = transform.Square(types.arraydata(lin), types.arraydata(r.randint(-4, 5, size=2) / 2.))
+                else:
+                    t = tf[op[1] % len(tf)]
+                # ... applied to a long-lived immutable array or to a fresh one (freed afterwards: its buffer address may be re-used)
+                if keep and r.rand() < 0.5:
+                    pts = keep[r.randint(len(keep))]
+                else:
+                    pts = types.frozenarray(r.randint(-8, 9, size=(3, t.fromdims)) / 4., copy=False)
+                    if len(keep) < 3 and r.rand() < 0.4 and t.fromdims == 2:
+                        keep.append(pts)
+                variants = [pts]
+                if pts.dtype == float and r.rand() < 0.3:
+                    variants.append(pts.view(pts.dtype.newbyteorder()))   # same buffer, same shape and strides, other dtype
+                for q in variants:
+                    got = t.apply(q)
+                    want = numpy.dot(q, t.linear.T) + t.offset
+                    if got.shape != want.shape or not numpy.array_equal(got, want):
+                        bad = ('C-stale-cache', f'lru-cached {type(t).__name__}.apply returned {numpy.asarray(got).tolist()} for points {q.tolist()} (dtype {q.dtype.str}), expected {want.tolist()}')
+                        break
+                del pts, t, variants
+                if bad:
                     break
-                if rep % 2:
-                    junk.append(pts)
-                del pts
-            if len(junk) > 3:
-                del junk[:2]
             log.append(('cached', op[1], op[2]))
             probe('lru_cached_call')
         if bad is None:
